@@ -662,7 +662,8 @@ def _fmt3(fmt, vals, single):
     if fmt == 'tuple':
         return tuple(vals), list(vals)
     if fmt == 'dict':
-        return dict(zip('xyz', vals)), list(vals)
+        # a dict is addressed by its keys: insertion order z, x, y on purpose
+        return {k: vals['xyz'.index(k)] for k in 'zxy'}, list(vals)
     raise ValueError(fmt)
 
 
@@ -694,7 +695,7 @@ def build_cm(c):
     # domain / distance / vector
     f = c['domain']
     if f == 'partial-dict':
-        arg, vals = {'x': None, 'y': DOM3[1], 'z': DOM3[2]}, \
+        arg, vals = {'y': DOM3[1], 'z': DOM3[2], 'x': None}, \
             [None, DOM3[1], DOM3[2]]
     else:
         arg, vals = _fmt3(f, DOM3, [-2600.0, 2100.0])
@@ -942,8 +943,8 @@ def ego_opts(name, model):
                 'domain': ([-1000., 1000.], None, [-1500., -200.]),
                 'center_on_edge': True}
     if name == 'distance':
-        return {'distance': {'x': [800., 900.], 'y': None, 'z': None},
-                'center_on_edge': {'x': True, 'y': False, 'z': True}}
+        return {'distance': {'y': None, 'x': [800., 900.], 'z': None},
+                'center_on_edge': {'z': True, 'x': True, 'y': False}}
     if name == 'seasurface':
         return {'seasurface': 0.0, 'center_on_edge': False,
                 'vector': (None, None, model.grid.nodes_z[:-1])}
